@@ -615,8 +615,24 @@ phase1:
 			}
 		}
 	}
-	// phase 2: drain until the channel is closed
+	// phase 2: drain until the channel is closed.  After a cancellation the producer must leave
+	// without any help from the consumer (it may be blocked on a full channel): wait for it first.
 	extraReads := 0
+	if cancelled && !hang && !closed {
+		deadline := time.Now().Add(watchdog())
+		for runtime.NumGoroutine() > baseline && !hang {
+			select {
+			case i := <-s.enter:
+				extraReads++
+				handleEnter(i)
+			case <-tick.C:
+				if time.Now().After(deadline) {
+					hang = true
+					lib.Finding("C16", "psrc:cancel-stuck", "producer goroutine did not exit after the context was cancelled (consumer not receiving)")
+				}
+			}
+		}
+	}
 	for !hang && !closed {
 		if pendingEnter >= 0 {
 			i := pendingEnter
